@@ -50,9 +50,16 @@ package dkg
 //     taken at quiescence.
 //     (3) a member whose Execute returns an error while the run context is
 //     still alive failed on its own (not because the monitor cancelled).
-//     (4) black-box variant of (1) for the Executor.Execute member: it must
-//     not send its phase k+1 message before its handler has even been handed
-//     a legitimate phase k message from every other operating member.
+//     (4) the Executor.Execute member is covered as well: the machine passes
+//     the current state object to the logger ("transitioning to a new state"),
+//     so the logger handed to Execute gives the monitor the same handle on the
+//     state and its history without touching the production path; (1) is
+//     checked at that log call (main loop, right after Next()), (2) at
+//     quiescence ("Initiate returned" = the state's own broadcast went out,
+//     the last statement of every Initiate). Independently of the log format
+//     there is a black-box variant of (1): the member must not send its phase
+//     k+1 message before its handler has even been handed a legitimate phase
+//     k message from every other operating member.
 //     In every run one receiver Y is scripted: for the scripted phases the
 //     message of member X is handed to Y twice in a row (a protocol-level
 //     duplicate, below the network retransmission filter) and the message of
@@ -502,6 +509,9 @@ type c07Obs struct {
 	pollsComplete      int64 // atomic: polls with a complete message set that answered true
 	suspect            int64 // atomic: polls with a complete message set that answered false
 	mu                 sync.Mutex
+	execState          state.AsyncState      // mu; written by the main loop (logger hook)
+	execBase           *state.BaseAsyncState // mu; written by the main loop (logger hook)
+	execSent           map[string]bool       // mu: types whose Send returned nil
 	execFed            map[string]map[group.MemberIndex]bool
 	execSendsChecked   int
 	execEarly          []c07Early
@@ -625,6 +635,124 @@ func c07HistLen(b *state.BaseAsyncState) int {
 	return n
 }
 
+func c07BaseOf(s state.AsyncState) *state.BaseAsyncState {
+	switch t := s.(type) {
+	case *ephemeralKeyPairGenerationState:
+		return t.BaseAsyncState
+	case *symmetricKeyGenerationState:
+		return t.BaseAsyncState
+	case *tssRoundOneState:
+		return t.BaseAsyncState
+	case *tssRoundTwoState:
+		return t.BaseAsyncState
+	case *tssRoundThreeState:
+		return t.BaseAsyncState
+	case *finalizationState:
+		return t.BaseAsyncState
+	}
+	return nil
+}
+
+// c07NoteTransition applies the transition rule to a state that is being left
+// (main loop of the member's machine).
+func c07NoteTransition(env *c07Env, obs *c07Obs, left state.AsyncState, base *state.BaseAsyncState) {
+	stateNo := c07StateNo(left)
+	typ := c07AwaitedType(stateNo)
+	if typ == "" || base == nil {
+		obs.transitionsSilent++
+		return
+	}
+	t := env.tally(obs.id, base, typ)
+	obs.transitionsChecked++
+	if t.dups {
+		obs.transitionsWithDup++
+	}
+	if !t.complete() {
+		obs.earlyTransitions = append(obs.earlyTransitions, t.early(fmt.Sprintf("%T", left), typ))
+		env.abort()
+	}
+	pl := env.plan
+	scriptedState := false
+	for _, st := range pl.scriptStates {
+		scriptedState = scriptedState || st == stateNo
+	}
+	if pl.scriptY == obs.id && scriptedState {
+		// did the scripted order reach the history: X's second entry
+		// before Z's first
+		xs, ok := 0, false
+		for _, s := range t.order {
+			if s == pl.scriptX {
+				xs++
+			}
+			if s == pl.scriptZ {
+				ok = xs >= 2
+				break
+			}
+		}
+		if ok {
+			obs.scriptOrdered++
+		}
+	}
+}
+
+// c07ExecLogger is the logger handed to Executor.Execute. The asynchronous
+// machine logs every state it enters ("transitioning to a new state",
+// "reached final state") with the state object itself among the arguments,
+// from its main loop: that is the monitor's handle on the states of the
+// member that runs through the unmodified production entry point.
+type c07ExecLogger struct {
+	*testutils.MockLogger
+	env *c07Env
+	obs *c07Obs
+}
+
+func (l *c07ExecLogger) Infof(format string, args ...interface{}) {
+	for _, a := range args {
+		st, ok := a.(state.AsyncState)
+		if !ok || c07StateNo(st) == 0 {
+			continue
+		}
+		o := l.obs
+		prev, prevBase := o.execState, o.execBase // only this goroutine writes them
+		if st != prev {
+			if prev != nil {
+				c07NoteTransition(l.env, o, prev, prevBase)
+			}
+			o.mu.Lock()
+			o.execState, o.execBase = st, c07BaseOf(st)
+			o.mu.Unlock()
+		} else if strings.Contains(format, "final state") {
+			c07NoteTransition(l.env, o, st, prevBase)
+		}
+	}
+}
+
+// c07PollExec is the poll-time stuck suspicion (see c07Proxy.CanTransition)
+// for the Executor.Execute member, whose polls the monitor cannot intercept:
+// the monitor asks the state itself, from a goroutine of its own. Like there
+// the completeness is computed first and the suspicion only stops the run.
+func c07PollExec(env *c07Env, ob *c07Obs) {
+	ob.mu.Lock()
+	st, base := ob.execState, ob.execBase
+	typ := ""
+	if st != nil {
+		typ = c07AwaitedType(c07StateNo(st))
+	}
+	sent := ob.execSent[typ]
+	ob.mu.Unlock()
+	if st == nil || base == nil || typ == "" || !sent {
+		return
+	}
+	if !env.tally(ob.id, base, typ).complete() {
+		return
+	}
+	if st.CanTransition() {
+		atomic.AddInt64(&ob.pollsComplete, 1)
+	} else if atomic.AddInt64(&ob.suspect, 1) == 1 {
+		env.abort()
+	}
+}
+
 // c07Proxy forwards every call of the AsyncState interface to the real state.
 type c07Proxy struct {
 	inner   state.AsyncState
@@ -735,41 +863,7 @@ func (p *c07Proxy) Next() (state.AsyncState, error) {
 	// the machine moves this member on: the awaited messages of every other
 	// operating member must be in the history now (Next runs on the machine's
 	// main loop, the only writer of the history)
-	if typ := c07AwaitedType(p.stateNo); typ == "" {
-		p.obs.transitionsSilent++
-	} else {
-		t := p.env.tally(p.obs.id, p.base, typ)
-		p.obs.transitionsChecked++
-		if t.dups {
-			p.obs.transitionsWithDup++
-		}
-		if !t.complete() {
-			p.obs.earlyTransitions = append(p.obs.earlyTransitions, t.early(fmt.Sprintf("%T", p.inner), typ))
-			p.env.abort()
-		}
-		pl := p.env.plan
-		scriptedState := false
-		for _, st := range pl.scriptStates {
-			scriptedState = scriptedState || st == p.stateNo
-		}
-		if pl.scriptY == p.obs.id && scriptedState {
-			// did the scripted order reach the history: X's second entry
-			// before Z's first
-			xs, ok := 0, false
-			for _, s := range t.order {
-				if s == pl.scriptX {
-					xs++
-				}
-				if s == pl.scriptZ {
-					ok = xs >= 2
-					break
-				}
-			}
-			if ok {
-				p.obs.scriptOrdered++
-			}
-		}
-	}
+	c07NoteTransition(p.env, p.obs, p.inner, p.base)
 	n, err := p.inner.Next()
 	if err != nil || n == nil {
 		return n, err
@@ -902,7 +996,16 @@ func (c *c07Chan) Send(ctx context.Context, m net.TaggedMarshaler, strategy ...n
 			c.inject("non-member-index", env.outsider, c07Clone(pm, group.MemberIndex(n+1), env.session, false, n, rng))
 		}
 	}
-	return c.inner.Send(ctx, m, strategy...)
+	err := c.inner.Send(ctx, m, strategy...)
+	if ok && err == nil && c.id == c.env.plan.execMember {
+		c.obs.mu.Lock()
+		if c.obs.execSent == nil {
+			c.obs.execSent = map[string]bool{}
+		}
+		c.obs.execSent[pm.Type()] = true
+		c.obs.mu.Unlock()
+	}
+	return err
 }
 
 // c07ScriptType is the scripted delivery of one message type at the scripted
@@ -1161,7 +1264,7 @@ func c07Run(r *verifkit.Run, f *c07Fixture, pl *c07Plan, rng *rand.Rand, watchdo
 				if id == pl.execMember {
 					// the production entry point, unmodified
 					out.res, out.err = c07Executor(pp).Execute(
-						ctx, logger, pl.seed, env.session, id, n, pl.dt,
+						ctx, &c07ExecLogger{MockLogger: logger, env: env, obs: out.obs}, pl.seed, env.session, id, n, pl.dt,
 						append([]group.MemberIndex(nil), pl.excluded...), ch, mv,
 					)
 					return
@@ -1196,7 +1299,34 @@ func c07Run(r *verifkit.Run, f *c07Fixture, pl *c07Plan, rng *rand.Rand, watchdo
 			})
 		}()
 	}
+	// poll-time stuck suspicion for the Executor.Execute member
+	pollStop := make(chan struct{})
+	var pollWg sync.WaitGroup
+	for _, out := range outs {
+		if out.id != pl.execMember {
+			continue
+		}
+		ob := out.obs
+		pollWg.Add(1)
+		go func() {
+			defer pollWg.Done()
+			tk := time.NewTicker(500 * time.Millisecond)
+			defer tk.Stop()
+			for {
+				select {
+				case <-pollStop:
+					return
+				case <-tk.C:
+					if ctx.Err() == nil {
+						r.Guard("dkg:stuck-inspection:", pl.desc(), func() { c07PollExec(env, ob) })
+					}
+				}
+			}
+		}()
+	}
 	wg.Wait()
+	close(pollStop)
+	pollWg.Wait()
 	expired := atomic.LoadInt32(&watchdogFired) == 1
 	return &c07RunResult{outs: outs, ctxExpired: expired, env: env}
 }
@@ -1252,6 +1382,37 @@ func c07IdxEq(a, b []group.MemberIndex) bool {
 }
 
 var c07StatMu sync.Mutex
+
+// c07Handle is the monitor's handle on the state a member stands in after the
+// run: through the proxy for the members built by the monitor, through the
+// logger for the Executor.Execute member.
+type c07Handle struct {
+	inner     state.AsyncState
+	base      *state.BaseAsyncState
+	stateNo   int
+	initiated bool // Initiate returned without error
+}
+
+func c07HandleOf(o *c07Out) *c07Handle {
+	ob := o.obs
+	if o.base != nil {
+		if ob.cur == nil {
+			return nil
+		}
+		return &c07Handle{inner: ob.cur.inner, base: o.base, stateNo: ob.cur.stateNo,
+			initiated: atomic.LoadInt32(&ob.cur.initiated) == 1}
+	}
+	ob.mu.Lock()
+	defer ob.mu.Unlock()
+	if ob.execState == nil || ob.execBase == nil {
+		return nil
+	}
+	h := &c07Handle{inner: ob.execState, base: ob.execBase, stateNo: c07StateNo(ob.execState)}
+	// every Initiate that waits for messages ends with the broadcast of the
+	// state's own message of the awaited type (states.go)
+	h.initiated = ob.execSent[c07AwaitedType(h.stateNo)]
+	return h
+}
 
 // c07Judge applies the oracles to one finished run and reports whether the
 // run observed a non-trivial condition.
@@ -1336,6 +1497,9 @@ func c07Judge(r *verifkit.Run, pl *c07Plan, rr *c07RunResult) (nontrivial bool) 
 		}
 		ob.mu.Lock()
 		r.Count("executor_member_sends_checked", int64(ob.execSendsChecked))
+		if o.base == nil {
+			r.Count("executor_member_transitions_checked", int64(ob.transitionsChecked))
+		}
 		for _, e := range ob.execEarly {
 			viol("dkg:transition-with-incomplete-messages",
 				fmt.Sprintf("member %d (Executor.Execute) left %s: its handler had not even been handed a legitimate %s message from member(s) %v (%s)",
@@ -1347,19 +1511,19 @@ func c07Judge(r *verifkit.Run, pl *c07Plan, rr *c07RunResult) (nontrivial bool) 
 		if o.res != nil || o.panicked {
 			continue
 		}
-		cur := ob.cur
-		if o.base == nil || cur == nil {
-			where = append(where, fmt.Sprintf("m%d: via Executor.Execute (no handle on its state)", o.id))
+		h := c07HandleOf(o)
+		if h == nil {
+			where = append(where, fmt.Sprintf("m%d: no handle on its state", o.id))
 			continue
 		}
-		typ := c07AwaitedType(cur.stateNo)
-		initiated := atomic.LoadInt32(&cur.initiated) == 1
+		typ := c07AwaitedType(h.stateNo)
+		initiated := h.initiated
 		if typ == "" {
-			where = append(where, fmt.Sprintf("m%d: %T initiated=%v (awaits nothing)", o.id, cur.inner, initiated))
+			where = append(where, fmt.Sprintf("m%d: %T initiated=%v (awaits nothing)", o.id, h.inner, initiated))
 			continue
 		}
-		t := env.tally(o.id, o.base, typ)
-		where = append(where, fmt.Sprintf("m%d: %T initiated=%v awaited entries [%s] missing %v", o.id, cur.inner, initiated, t.String(), t.missing))
+		t := env.tally(o.id, h.base, typ)
+		where = append(where, fmt.Sprintf("m%d: %T initiated=%v awaited entries [%s] missing %v", o.id, h.inner, initiated, t.String(), t.missing))
 		if o.failedLive {
 			continue // failed on its own: judged below
 		}
@@ -1370,7 +1534,7 @@ func c07Judge(r *verifkit.Run, pl *c07Plan, rr *c07RunResult) (nontrivial bool) 
 		can := false
 		r.Guard("dkg:stuck-inspection:", desc, func() {
 			for k := 0; k < 3; k++ {
-				if cur.inner.CanTransition() {
+				if h.inner.CanTransition() {
 					can = true
 				}
 			}
@@ -1379,8 +1543,8 @@ func c07Judge(r *verifkit.Run, pl *c07Plan, rr *c07RunResult) (nontrivial bool) 
 			stuckConfirmed = true
 			viol("dkg:stuck-with-complete-messages",
 				fmt.Sprintf("member %d cannot leave state %T: Initiate returned, the history holds a legitimate %s message from every other operating member (entries per sender: %s; duplicates present: %v), yet CanTransition() answers false at quiescence (asked 3 times)",
-					o.id, cur.inner, typ, t.String(), t.dups),
-				map[string]interface{}{"member": o.id, "excluded": pl.excluded, "state": fmt.Sprintf("%T", cur.inner),
+					o.id, h.inner, typ, t.String(), t.dups),
+				map[string]interface{}{"member": o.id, "excluded": pl.excluded, "state": fmt.Sprintf("%T", h.inner), "via_executor": o.base == nil,
 					"awaited_type": typ, "legit_entries_per_sender": t.String(), "duplicates_present": t.dups,
 					"polls_answered_false_with_complete_messages": atomic.LoadInt64(&ob.suspect)})
 		}
@@ -1424,23 +1588,23 @@ func c07Judge(r *verifkit.Run, pl *c07Plan, rr *c07RunResult) (nontrivial bool) 
 			live = append(live, fmt.Sprintf("member %d: %v", o.id, o.err))
 			fp, what := "dkg:member-error", "an operating member failed (run context alive) although every operating member is honest"
 			wit := map[string]interface{}{"member": o.id, "excluded": pl.excluded, "error": o.err.Error()}
-			if o.base != nil && o.obs.cur != nil {
+			if h := c07HandleOf(o); h != nil {
 				// every message consumed so far was in (the transitions were
 				// checked one by one above)
 				complete := true
 				var have []string
-				for st := 1; st < o.obs.cur.stateNo; st++ {
+				for st := 1; st < h.stateNo; st++ {
 					if typ := c07AwaitedType(st); typ != "" {
-						t := env.tally(o.id, o.base, typ)
+						t := env.tally(o.id, h.base, typ)
 						complete = complete && t.complete()
 						have = append(have, fmt.Sprintf("state %d [%s]", st, t.String()))
 					}
 				}
-				wit["state"] = fmt.Sprintf("%T", o.obs.cur.inner)
+				wit["state"] = fmt.Sprintf("%T", h.inner)
 				wit["consumed_legit_entries_per_sender"] = have
 				if complete {
 					fp = "dkg:member-failed-with-complete-messages"
-					what = fmt.Sprintf("an operating member failed in state %T (run context alive) although every message it had to consume was in its history", o.obs.cur.inner)
+					what = fmt.Sprintf("an operating member failed in state %T (run context alive) although every message it had to consume was in its history", h.inner)
 				}
 			}
 			viol(fp, what+": "+fmt.Sprintf("member %d: %v", o.id, o.err), wit)
